@@ -32,7 +32,8 @@ const (
 	VerifNumSites          = verifNumSites
 )
 
-// VerifHits counts how often each site was reached.
+// VerifHits counts how often each site was reached (see verifCount: exact in
+// ordinary builds, a lower bound in race-detector builds).
 var VerifHits [VerifNumSites]uint64
 
 // VerifHitFn, if set, is called at every site after counting. It must only be
@@ -45,7 +46,7 @@ var VerifHitFn func(site int)
 var VerifPoolFn func(buf []Word, put bool)
 
 func verifHit(site int) {
-	atomic.AddUint64(&VerifHits[site], 1)
+	verifCount(site)
 	if f := VerifHitFn; f != nil {
 		f(site)
 	}
